@@ -1,0 +1,133 @@
+//go:build verif
+
+package uasc
+
+import (
+	"time"
+
+	"github.com/gopcua/opcua/ua"
+	"github.com/gopcua/opcua/uacp"
+	"github.com/gopcua/opcua/uapolicy"
+)
+
+// Verification hooks (build tag "verif"). Add-only; not compiled in normal builds.
+
+// VerifInstance wraps a channelInstance that is not attached to a connection.
+type VerifInstance struct {
+	C *channelInstance
+}
+
+// VerifNewInstance creates a detached channel instance using the given algorithm.
+func VerifNewInstance(policyURI string, mode ua.MessageSecurityMode, algo *uapolicy.EncryptionAlgorithm, chanID, tokenID, seq uint32) *VerifInstance {
+	sc := &SecureChannel{cfg: &Config{SecurityPolicyURI: policyURI, SecurityMode: mode}}
+	c := newChannelInstance(sc)
+	c.algo = algo
+	c.secureChannelID = chanID
+	c.securityTokenID = tokenID
+	c.sequenceNumber = seq
+	c.state = channelActive
+	return &VerifInstance{C: c}
+}
+
+func (v *VerifInstance) SetMaximumBodySize(chunkSize int) uint32 {
+	v.C.SetMaximumBodySize(chunkSize)
+	return v.C.maxBodySize
+}
+
+func (v *VerifInstance) MaxBodySize() uint32              { return v.C.maxBodySize }
+func (v *VerifInstance) SetMaxBodySize(n uint32)          { v.C.maxBodySize = n }
+func (v *VerifInstance) SequenceNumber() uint32           { return v.C.sequenceNumber }
+func (v *VerifInstance) SetSequenceNumber(n uint32)       { v.C.sequenceNumber = n }
+func (v *VerifInstance) NextSequenceNumber() uint32       { return v.C.nextSequenceNumber() }
+func (v *VerifInstance) SetMode(m ua.MessageSecurityMode) { v.C.sc.cfg.SecurityMode = m }
+
+// NewMessage builds a message as the send path does (consumes one sequence number).
+func (v *VerifInstance) NewMessage(svc interface{}, typeID uint16, reqID uint32) *Message {
+	return v.C.newMessage(svc, typeID, reqID)
+}
+
+// SignAndEncrypt secures one encoded chunk of m.
+func (v *VerifInstance) SignAndEncrypt(m *Message, chunk []byte) ([]byte, error) {
+	return v.C.signAndEncrypt(m, chunk)
+}
+
+// VerifyAndDecrypt decodes the chunk headers of b and runs the instance's verifyAndDecrypt.
+func (v *VerifInstance) VerifyAndDecrypt(b []byte) (*MessageChunk, []byte, error) {
+	m := new(MessageChunk)
+	if _, err := m.Decode(b); err != nil {
+		return nil, nil, err
+	}
+	d, err := v.C.verifyAndDecrypt(m, b)
+	return m, d, err
+}
+
+// VerifMergeChunks runs mergeChunks on chunks given by sequence number and data.
+func VerifMergeChunks(seqs []uint32, datas [][]byte) ([]byte, error) {
+	var cs []*MessageChunk
+	for i := range seqs {
+		cs = append(cs, &MessageChunk{
+			MessageHeader: &MessageHeader{SequenceHeader: &SequenceHeader{SequenceNumber: seqs[i]}},
+			Data:          datas[i],
+		})
+	}
+	return mergeChunks(cs)
+}
+
+// VerifChannel gives read access to the tables of a SecureChannel.
+type VerifChannel struct{ S *SecureChannel }
+
+func (v VerifChannel) HandlerIDs() []uint32 {
+	v.S.handlersMu.Lock()
+	defer v.S.handlersMu.Unlock()
+	var ids []uint32
+	for k := range v.S.handlers {
+		ids = append(ids, k)
+	}
+	return ids
+}
+
+func (v VerifChannel) ChunkCounts() map[uint32]int {
+	v.S.chunksMu.Lock()
+	defer v.S.chunksMu.Unlock()
+	m := map[uint32]int{}
+	for k, c := range v.S.chunks {
+		m[k] = len(c)
+	}
+	return m
+}
+
+// Instances returns, per table key, the (channel id, token id) pairs stored.
+func (v VerifChannel) Instances() map[uint32][][2]uint32 {
+	v.S.instancesMu.Lock()
+	defer v.S.instancesMu.Unlock()
+	m := map[uint32][][2]uint32{}
+	for k, l := range v.S.instances {
+		for _, i := range l {
+			m[k] = append(m[k], [2]uint32{i.secureChannelID, i.securityTokenID})
+		}
+	}
+	return m
+}
+
+func (v VerifChannel) ActiveToken() (chanID, tokenID, seq uint32, ok bool) {
+	v.S.instancesMu.Lock()
+	defer v.S.instancesMu.Unlock()
+	if v.S.activeInstance == nil {
+		return 0, 0, 0, false
+	}
+	a := v.S.activeInstance
+	return a.secureChannelID, a.securityTokenID, a.sequenceNumber, true
+}
+
+func (v VerifChannel) SetClock(f func() time.Time) { v.S.time = f }
+func (v VerifChannel) SetRequestID(n uint32) {
+	v.S.requestIDMu.Lock()
+	v.S.requestID = n
+	v.S.requestIDMu.Unlock()
+}
+func (v VerifChannel) NextRequestID() uint32 { return v.S.nextRequestID() }
+func (v VerifChannel) Conn() *uacp.Conn      { return v.S.c }
+
+// VerifRenewDelay / VerifExpiryDelay reproduce the timer arithmetic of scheduleRenewal / scheduleExpiration
+// by calling the same expressions (kept textually identical; checked by the translator).
+func VerifTimeoutLeniency() time.Duration { return timeoutLeniency }
